@@ -21,7 +21,8 @@ ASSUMPTIONS = [
     "least-squares identities: residual = S00 - S^H T^-1 S is invariant under x -> M x",
     "tolerances relative to the output ASD at the same bin",
 ]
-DECIDING_COUNTERS = ["systems", "bins_bounds_checked", "permutation_pairs", "remix_pairs",
+DECIDING_COUNTERS = ["systems", "bins_bounds_checked", "collinear_numeric_cases", "permutation_pairs",
+                     "remix_pairs",
                      "rescale_pairs", "analytic_vs_numeric", "siso_bins", "exact_combination"]
 MIN_NONTRIVIAL = {"quick": 30, "thorough": 600}
 JOBS = {"quick": 8, "thorough": 16}
@@ -34,7 +35,8 @@ def shards(tier, seed):
         n_sh, n, budget = 16, 400, 500
     return [{"name": f"miso{i}", "threads": 2, "timeout": budget * 4 + 400,
              "params": {"seed": seed, "shard": i, "n": n, "budget_s": budget}}
-            for i in range(n_sh)]
+            for i in range(n_sh)] + [{"name": "corpus", "threads": 2, "timeout": 900,
+                                      "params": {"kind": "corpus"}}]
 
 
 def make_system(rng, q, N, exact=False, disparity=False):
@@ -277,7 +279,78 @@ def one_system(rec, seedt):
                           f"are rescaled by {np.array2string(sc, precision=2)}")
 
 
+def collinear_case(rec, seedt):
+    """Exactly collinear inputs (a duplicated input, or one input that is a linear combination of
+    the others): the input spectral matrix is singular.  The numeric solver must still return a
+    physical residual equal to the one obtained without the redundant input.  The analytic
+    (closed-form) solver divides by a vanishing determinant - recorded as a known finding and
+    classified by mechanism (condition number of the inputs' covariance)."""
+    from speckit import systems, compute_spectrum
+    rng = gen.rng_for(*seedt)
+    q0 = int(rng.choice([1, 2, 3]))
+    N = int(rng.integers(2000, 6000))
+    inputs, y, kinds, coup = make_system(rng, q0, N, exact=False, disparity=False)
+    how = str(rng.choice(["duplicate", "combination"])) if q0 >= 2 else "duplicate"
+    if how == "duplicate":
+        extra = inputs[int(rng.integers(0, q0))].copy()
+    else:
+        extra = sum(float(c) * v for c, v in zip(rng.uniform(-2, 2, size=q0), inputs))
+    pos = int(rng.integers(0, q0 + 1))
+    full = inputs[:pos] + [np.ascontiguousarray(extra)] + inputs[pos:]
+    kw = options(rng, N)
+    fs = 1.0
+    cond = float(np.linalg.cond(np.cov(np.vstack(full))))
+    desc = {"kind": "collinear", "seed": list(seedt), "q": q0 + 1, "how": how, "N": N,
+            "sched": kw["scheduler"], "order": kw["order"], "cov_cond": cond}
+    rec.case(desc, nontrivial=True)
+    ry = api.attempt(rec, lambda: compute_spectrum(y, fs, **kw), "output spectrum")
+    if ry is None:
+        return
+    asd_y = np.asarray(ry.asd)
+    sel = (np.asarray(ry.K) > q0 + 1) & (np.asarray(ry.L) > kw["order"] + 1) \
+        & (asd_y > 1e-12 * float(np.max(asd_y)))
+    if not np.any(sel):
+        return
+    tag = f"[collinear inputs ({how}), q={q0 + 1}, {kw['scheduler']}, order {kw['order']}] "
+    out = api.attempt(rec, lambda: systems.MISO_numeric_optimal_spectral_analysis(full, y, fs, **kw),
+                      "MISO_numeric with collinear inputs")
+    ref = api.attempt(rec, lambda: systems.MISO_numeric_optimal_spectral_analysis(inputs, y, fs, **kw),
+                      "MISO_numeric without the redundant input")
+    if out is not None and ref is not None:
+        rec.count("collinear_numeric_cases")
+        rn, r0 = np.asarray(out[1]), np.asarray(ref[1])
+        if np.any(~np.isfinite(rn[sel])) or np.any(rn[sel] < 0) \
+                or np.any(rn[sel] > asd_y[sel] * (1 + 1e-9)):
+            rec.violation("residual-not-physical:numeric", f"{tag}numeric residual outside "
+                                                           f"[0, asd_y] or not finite")
+        d = np.abs(rn - r0)[sel] / asd_y[sel]
+        rec.ratio("collinear_numeric_err_over_1e-6", float(d.max()) / 1e-6)
+        if d.max() > 1e-6:
+            rec.violation("numeric-singular-inputs",
+                          f"{tag}numeric residual differs by {d.max():.3e} x asd_y from the "
+                          f"residual without the redundant input")
+    outa = api.attempt(rec, lambda: systems.MISO_analytic_optimal_spectral_analysis(full, y, fs, **kw),
+                       "MISO_analytic with collinear inputs") if q0 + 1 <= 3 else None
+    if outa is not None and out is not None:
+        rec.count("collinear_analytic_cases")
+        ra = np.asarray(outa[1])
+        bad = np.any(~np.isfinite(ra[sel])) or np.any(ra[sel] > asd_y[sel] * (1 + 1e-9)) \
+            or np.max(np.abs(ra - np.asarray(out[1]))[sel] / asd_y[sel]) > 1e-6
+        if bad:
+            key = "analytic-singular-input-matrix" if cond > 1e12 else "analytic-vs-numeric"
+            with np.errstate(all="ignore"):
+                worst = float(np.nanmax(ra[sel] / asd_y[sel]))
+            rec.violation(key, f"{tag}analytic residual reaches {worst:.3e} x asd_y / differs from "
+                               f"the numeric solver (covariance condition number {cond:.2e})")
+
+
 def run_shard(params, rec):
+    if params.get("kind") == "corpus":
+        collinear_case(rec, [0, "corpus", 0])
+        rec.count("corpus_replayed")
+        return
+    for i in range(max(1, params["n"] // 5)):
+        collinear_case(rec, [params["seed"], params["shard"], "col", i])
     t0 = time.time()
     for i in range(params["n"]):
         if time.time() - t0 > params["budget_s"]:
@@ -287,4 +360,6 @@ def run_shard(params, rec):
 
 
 def replay(case, rec):
+    if case.get("kind") == "collinear":
+        return collinear_case(rec, case["seed"])
     one_system(rec, case["seed"])
